@@ -224,6 +224,7 @@ def check_config(ctx, tr, rng, k, j, mon):
             events = mon.disarm()
         skipped = w.get_skipped()
         got2 = list(w.imatch())
+        skipped2 = w.get_skipped()      # the count belongs to the run: a second run of the object reports the same number
         got = [os.path.abspath(p) for p in got]
         got2 = [os.path.abspath(p) for p in got2]
         events = [os.path.abspath(e) if not os.path.isabs(e) else e for e in events]
@@ -247,6 +248,8 @@ def check_config(ctx, tr, rng, k, j, mon):
     if got2 != got:
         ctx.disagree('imatch() does not yield match()\'s list', dict(wit, match=got_rel[:20]))
     ctx.count('skipped_counter_checks')
+    if skipped2 != skipped:
+        ctx.disagree('get_skipped() after a second run of the same object differs from the first run', dict(wit, first=skipped, second=skipped2))
     if skipped != exp_skipped:
         ctx.disagree('get_skipped() differs from files visited and not returned', dict(wit, get_skipped=skipped, expected=exp_skipped))
     listed = [lexical_rel(root, os.path.normpath(e)) for e in events]
